@@ -138,5 +138,91 @@ func TestVerifC05mux(t *testing.T) {
 			}
 		}
 	}
+	// sibling family: several rules and several paths per rule carry DIFFERENT filters under one server filter; each
+	// request must be judged by the chain server -> its rule -> its path, never by a sibling's filter
+	var sreqs []c05Req
+	for _, host := range []string{"a.com", "b.com"} {
+		for _, p := range []string{"/r", "/s"} {
+			for _, cl := range []string{c05A, c05B} {
+				sreqs = append(sreqs, c05Req{vReq{Host: host, Method: "GET", Path: p, Remote: cl}, cl})
+			}
+		}
+	}
+	for si, S := range c05Levels {
+		for p1, P1 := range c05Levels {
+			for p2, P2 := range c05Levels {
+				for r1, R1 := range c05Levels[:3] {
+					for r2, R2 := range c05Levels[:2] {
+						for _, cache := range []int{0, 16} {
+							S, P1, P2, R1, R2, cache := S, P1, P2, R1, R2, cache
+							name := fmt.Sprintf("sib-S%d-Ra%d(r:P%d,s:P%d)-Rb%d-cache%d", si, r1, p1, p2, r2, cache)
+							mk := func(withIP bool) string {
+								ra := vRule{Host: "a.com", Entries: []vEntry{{Path: "/r", Backend: "p1"}, {Path: "/s", Backend: "p2"}}}
+								rb := vRule{Host: "b.com", Entries: []vEntry{{Path: "/r", Backend: "p3"}}}
+								extra := ""
+								if withIP {
+									ra.IPFilter, rb.IPFilter = R1.yaml, R2.yaml
+									ra.Entries[0].IPFilter, ra.Entries[1].IPFilter = P1.yaml, P2.yaml
+									if S.yaml != "" {
+										extra = "ipFilter: " + S.yaml + "\n"
+									}
+								}
+								if cache > 0 {
+									extra += fmt.Sprintf("cacheSize: %d\n", cache)
+								}
+								return vServerYAML([]vRule{ra, rb}, extra)
+							}
+							var rig, twin *vRig
+							var spec string
+							run := func(c *mc.Ctx) {
+								if rig == nil {
+									spec = mk(true)
+									var err error
+									if rig, err = newVRig(spec); err != nil {
+										c.Failf("spec-rejected", "%v\n%s", err, spec)
+									}
+									if twin, err = newVRig(mk(false)); err != nil {
+										c.Failf("spec-rejected", "%v", err)
+									}
+								}
+								rig.m.reload(rig.m.inst.Load().(*muxInstance).superSpec, rig)
+								for i := 0; i < 2; i++ {
+									r := sreqs[c.Choose(len(sreqs), "req")]
+									c.Note("%s (client %s)", r.q, r.client)
+									got, tw := rig.do(r.q), twin.do(r.q)
+									denied := S.denies(r.client)
+									if r.q.Host == "a.com" {
+										denied = denied || R1.denies(r.client)
+										if r.q.Path == "/r" {
+											denied = denied || P1.denies(r.client)
+										} else {
+											denied = denied || P2.denies(r.client)
+										}
+									} else {
+										denied = denied || R2.denies(r.client)
+									}
+									if denied {
+										c.AddOutcome(fmt.Sprintf("denied/twin=%d", tw.Status))
+										if got.Backend != "" {
+											c.Failf("denied-client-reached-backend:siblings", "step %d %s: client %s is denied but handler %q was invoked (status %d)\nspec:\n%s", i+1, r.q, r.client, got.Backend, got.Status, spec)
+										}
+										if got.Status < 400 || got.Status > 499 || (tw.Backend != "" && got.Status != 403) {
+											c.Failf(fmt.Sprintf("denied-client-status=%d,route-exists=%v:siblings", got.Status, tw.Backend != ""), "step %d %s: client %s is denied, got status %d (filterless twin: %s)\nspec:\n%s", i+1, r.q, r.client, got.Status, tw, spec)
+										}
+									} else {
+										c.AddOutcome(fmt.Sprintf("ok/twin=%d", tw.Status))
+										if got.Status != tw.Status || got.Backend != tw.Backend || got.Path != tw.Path {
+											c.Failf(fmt.Sprintf("allowed-client-differs:want=%d,got=%d:siblings", tw.Status, got.Status), "step %d %s: client %s is not denied; with filters %s, without %s\nspec:\n%s", i+1, r.q, r.client, got, tw, spec)
+										}
+									}
+								}
+							}
+							jobs = append(jobs, mc.ExploreJob(mc.Options{Job: name, MaxDev: -1}, run))
+						}
+					}
+				}
+			}
+		}
+	}
 	mc.RunJobs("C05", jobs)
 }
